@@ -659,7 +659,10 @@ def classify(v, case):
         dirs = {S.script_direction(x) for side_ in det.get("scripts") or [] for x in side_} - {None}
         # (only when every member has a script direction of its own: a script-neutral member -
         # punctuation, a generic combining mark - keeps the whole class together)
-        if len(dirs) == 1 and all(scr_.get(g) and None not in {S.script_direction(x) for x in scr_[g]}
+        # (a ligature one of whose inputs is script-neutral counts as neutral for the writer: it
+        # is a member of every script's share of the class)
+        if len(dirs) == 1 and all(scr_.get(g) and g not in neutral
+                                  and None not in {S.script_direction(x) for x in scr_[g]}
                                   for g in members):
             members = {g for g in members if {S.script_direction(x) for x in scr_[g]} & dirs}
         key_bidi = set()
